@@ -2078,3 +2078,46 @@ Proof.
         destruct q as [|q1 [|q2 [|q3 [|q4 q]]]]; simpl in P; inversion P; subst; vm_compute; discriminate.
   - eexists. split; [vm_compute; reflexivity|]. split; vm_compute; reflexivity.
 Qed.
+
+(* ================================================================== *)
+(* download over pre-existing local content                              *)
+
+(* laying a file over whatever is at A (nothing, or a file of ANY content and length) shows exactly the new
+   contents at A, nothing below A, and leaves every other path as it was *)
+Lemma graft_file_placed fs A c :
+  (forall ch, lookup fs A <> Some (Dir ch)) ->
+  forall q, look (graft fs A (File c)) q = placed fs A (File c) q.
+Proof.
+  intros ND q. change (graft fs A (File c)) with (write_at fs A c). rewrite look_write_at. unfold placed.
+  destruct (strip_prefix A q) as [[|m x]|] eqn:SP; try reflexivity.
+  apply strip_prefix_Some in SP. subst q. cbn. rewrite look_app.
+  destruct (lookup fs A) as [[c0|ch0]|] eqn:E; auto. exfalso. eapply ND; reflexivity.
+Qed.
+
+(* a single remote file downloaded onto an EXISTING local file of arbitrary old contents: the local file is the
+   remote bytes afterwards -- no remainder of the old contents, whatever their length -- and nothing else changed *)
+Lemma download_file_replaces cwd rfs lcwd lfs src dst wi c c_old fuel :
+  let dst' := final_destination (pname src) dst wi in
+  let A := resolve lcwd dst' in
+  (1 <= fuel)%nat ->
+  lookup rfs (resolve cwd src) = Some (File c) ->
+  lookup lfs A = Some (File c_old) ->
+  no_file_on lfs (removelast A) ->
+  p_parts dst' <> [] ->
+  download fuel cwd rfs lcwd lfs src dst wi = Ok (graft lfs A (File c)) /\
+  look (graft lfs A (File c)) A = Some (EFile c) /\
+  forall q, look (graft lfs A (File c)) q = placed lfs A (File c) q.
+Proof.
+  intros dst' A Hf L LO NF HP.
+  assert (ND : forall ch, lookup lfs A <> Some (Dir ch)) by (intros ch E; rewrite LO in E; discriminate).
+  split; [|split].
+  - apply download_spec; auto.
+    + exact Logic.I.
+    + intros r tt Lr. destruct r as [|m r]; [|discriminate].
+      cbn in Lr. inversion Lr; subst tt. rewrite app_nil_r. exact ND.
+  - rewrite graft_file_placed by exact ND.
+    assert (SP : strip_prefix A A = Some []).
+    { pose proof (strip_prefix_app A []) as H. rewrite app_nil_r in H. exact H. }
+    unfold placed. rewrite SP. reflexivity.
+  - apply graft_file_placed. exact ND.
+Qed.
